@@ -308,13 +308,13 @@ let run_case (x : sx) : Stdlib.String.t =
                     | L [A "pq"; L inner; A ne; L j] -> BPQ (List.map rstep_of inner, ne = "1", List.map rstep_of j)
                     | L (A "x" :: L inner :: body) -> BX (List.map rstep_of inner, cp body)
                     | L (A "cl" :: L inner :: A o :: lit) -> BCL (cp lit, op_of o, List.map rstep_of inner)
-                    | L [A "l"; L inner; A ne; L lv] ->
+                    | L [A k; L inner; A ne; L lv] when k = "l" || k = "ll" ->
                         let l = match lv with
                           | A "s" :: A q :: body -> LStr (n_of_int (int_of_string q), cp body)
                           | [A "b"; A b; A sp] -> LBool (b = "1", nat_of_int (int_of_string sp))
                           | [A "n"; A sp] -> LNull (nat_of_int (int_of_string sp))
                           | _ -> failwith "bad literal" in
-                        BL (List.map rstep_of inner, ne = "1", l)
+                        if k = "l" then BL (List.map rstep_of inner, ne = "1", l) else BLL (l, ne = "1", List.map rstep_of inner)
                     | _ -> failwith "bad basic query" in
                   let rec qt_of = function
                     | L [A "b"; b] -> TB (bq_of b)
